@@ -9,6 +9,7 @@ import (
 
 	"verif.local/mc"
 	"verif.local/sched"
+	"verif.local/shim/vsync"
 	"verif.local/world"
 )
 
@@ -140,6 +141,11 @@ func pschedules(r *mc.Run) {
 				refs = append(refs, o)
 			})
 		})
+		// the sequential runs above went through vsync without a scheduler: if the
+		// provider tried a lock there, explore preemptions inside critical sections too
+		if vsync.Adapt() {
+			r.Extra["unlock_points"] = true
+		}
 		bound := -1
 		if len(sc.threads) > 2 && !r.Thorough() {
 			bound = 3
